@@ -414,12 +414,21 @@ func runSSTDamage(args []string) error {
 
 		probe := func(kind string, off, val int, content []byte) {
 			os.WriteFile(dataPath, content, 0o600)
-			for _, mode := range []string{"load", "read"} {
+			for _, ml := range [][2]string{{"load", "slice"}, {"read", "slice"}, {"read", "map"}, {"read", "skiplist"}, {"read", "disk"}, {"load", "disk"}} {
+				mode, loader := ml[0], ml[1]
 				ropts := []sstables.ReadOption{sstables.ReadBasePath(dir), sstables.ReadWithKeyComparator(cmp)}
 				if mode == "read" {
 					ropts = append(ropts, sstables.SkipHashCheckOnLoad(), sstables.EnableHashCheckOnReads())
 				}
-				ev := M{"t": "dmg", "kind": kind, "off": off, "val": val, "mode": mode, "open": "ok", "gets": []string{}, "scan": [][]any{}, "scanend": "ok",
+				switch loader {
+				case "map":
+					ropts = append(ropts, sstables.ReadIndexLoader(&sstables.MapKeyIndexLoader[string]{ReadBufferSize: 4096, Mapper: strMapper{}}))
+				case "skiplist":
+					ropts = append(ropts, sstables.ReadIndexLoader(&sstables.SkipListIndexLoader{KeyComparator: cmp, ReadBufferSize: 4096}))
+				case "disk":
+					ropts = append(ropts, sstables.ReadIndexLoader(&sstables.DiskIndexLoader{}))
+				}
+				ev := M{"t": "dmg", "kind": kind, "off": off, "val": val, "mode": mode, "loader": loader, "open": "ok", "gets": []string{}, "scan": [][]any{}, "scanend": "ok",
 					"range": [][]any{}, "rangeend": "ok"}
 				func() {
 					defer func() {
